@@ -230,10 +230,7 @@ func (ex *Exec) unop(st *State, x *ssa.UnOp) {
 			if rf := g.rangeFact(x.Type(), ex.vals[x]); rf != "" {
 				g.assume(ex.pcCur, rf)
 			}
-			switch x.Type().Underlying().(type) {
-			case *types.Pointer, *types.Map:
-				ex.assumeAllocated(st, ex.pcCur, ex.vals[x])
-			}
+			ex.assumeTypeAlloc(st, ex.pcCur, x.Type(), ex.vals[x])
 		}
 	case token.NOT:
 		ex.setVal(x, fmt.Sprintf("(not %s)", ex.val(x.X)))
@@ -338,10 +335,7 @@ func (ex *Exec) postLoadFacts(st *State, t types.Type, term string) {
 	if rf := ex.g.rangeFact(t, term); rf != "" {
 		ex.g.assume(ex.pcCur, rf)
 	}
-	switch t.Underlying().(type) {
-	case *types.Pointer, *types.Map:
-		ex.assumeAllocated(st, ex.pcCur, term)
-	}
+	ex.assumeTypeAlloc(st, ex.pcCur, t, term)
 }
 
 func (ex *Exec) mapUpdate(st *State, x *ssa.MapUpdate) {
